@@ -471,6 +471,9 @@ def parseArgsParseCommonKw : List String := ["cfg", "defaults", "env", "skip_val
 def envBranch : List String := ["env_var in env and isinstance(action, _ActionSubCommands)", "env_val = env[env_var]", "if env_val in action.choices:\n    cfg[action.dest] = subcommand = self._check_value_key(action, env_val, action.dest, cfg)\n    pcfg = action._name_parser_map[env_val].parse_env(env=env, defaults=defaults, _skip_validation=True)\n    for k, v in vars(pcfg).items():\n        cfg[subcommand + '.' + k] = v"]
 def applyLinksHead : List String := ["if apply_config_skip.get() or _ActionPrintConfig.is_print_config_requested(parser):\n    return", "subcommand, subparser = _ActionSubCommands.get_subcommand(parser, cfg, fail_no_subcommand=False)", "if subcommand and subcommand in cfg:\n    ActionLink.apply_parsing_links(subparser, cfg[subcommand])"]
 def addSubcommand : List String := ["if parser._subparsers is not None:\n    raise ValueError('Multiple levels of subcommands must be added in level order.')", "if self.dest == name:\n    raise ValueError(f\"A subcommand name can't be the same as the subcommands dest: '{name}'.\")", "parser.prog = f'{self._prog_prefix} [options] {name}'", "parser.env_prefix = f'{self.env_prefix}{name}_'", "parser.default_env = self.parent_parser.default_env", "parser.parent_parser = self.parent_parser", "parser.parser_mode = self.parent_parser.parser_mode", "parser._error_handler = self.parent_parser._error_handler", "parser.exit_on_error = self.parent_parser.exit_on_error", "parser.logger = self.parent_parser.logger", "parser.subcommand = name"]
+/-- the `default_env` setter assigns THROUGH THE PROPERTY on every sub-parser, i.e. recursively: environment parsing is
+    on or off for the whole tree, which is why `handle`, `argvCall`, `parseArgs` and `layFuel` carry ONE `mode` -/
+def defaultEnvPropagation : List String := ["self._subcommands_action", "for subparser in self._subcommands_action._name_parser_map.values():\n    subparser.default_env = self._default_env"]
 end Shape
 
 end Jap.Subcmd
